@@ -49,7 +49,10 @@ def register_tcp_client(R):
     R.module("easynetwork/lowlevel/typed_attr.py")
     R.contract("typed_attribute", result="obj", trusted=True, ensures=["True"])
     R.contract("TypedAttributeProvider.extra", params={"attribute": "obj", "default": "obj"}, result="obj", trusted=True,
-               ensures=["True"], raises={"TypedAttributeLookupError": ["True"]})
+               ensures=["True"], raises={"TypedAttributeLookupError": [("only-when-no-default-value-was-given, and never for the attributes that are plain reads of the socket object (family, socket)",
+                                                      "defaulted('default') and not (attribute == 'SocketAttribute.family' or attribute == 'SocketAttribute.socket')")]})
+    R.assume("TypedAttributeProvider.extra(): a lookup fails (TypedAttributeLookupError) only when no default is given; INETSocketAttribute.family / .socket "
+             "never fail (attribute reads of the socket object); peername / sockname may fail (live getpeername()/getsockname(), e.g. ENOTCONN after a reset)")
     R.module("easynetwork/lowlevel/_utils.py")
     R.contract("check_real_socket_state", params={"socket": "obj", "error_msg": "opt[obj]"}, trusted=True, ensures=["True"], raises={"OSError": ["True"]})
     R.module("easynetwork/lowlevel/api_sync/transports/abc.py")
